@@ -334,4 +334,205 @@ fn c02_o2_compiled_validity_kleene__excluding_known() {
     kleene_check(true);
 }
 
+
+// ---------------------------------------------------------------- C06 / C02: the whole chunk loop of evaluate
+/// Everything `evaluate` does between resolving the columns and building the BooleanArray, verbatim:
+/// slab allocation, the decision whether a validity bitmap exists, the `while start < n` chunk loop
+/// (eval_chunk call, bit packing, append, validity rows). Run over SEVERAL chunks with a ragged tail,
+/// so state that survives from one chunk into the next (slabs, scratch buffers, cursors) is inside the
+/// verified text. CHUNK is 16 here (R6: the text is parametric in CHUNK).
+pub mod loop_c {
+    pub const CHUNK: usize = 8;
+    pub const MAXN: usize = 2 * CHUNK + 3;
+    /// `Vec<bool>` of the region (the validity bitmap): fixed-capacity carrier (R6)
+    pub struct Vec<T: Copy> {
+        buf: [T; MAXN],
+        len: usize,
+    }
+    impl Vec<bool> {
+        pub fn with_capacity(_n: usize) -> Self {
+            Vec { buf: [false; MAXN], len: 0 }
+        }
+        pub fn push(&mut self, t: bool) {
+            assert!(self.len < MAXN, "VERIF carrier capacity (unsupported)");
+            self.buf[self.len] = t;
+            self.len += 1;
+        }
+        pub fn len(&self) -> usize {
+            self.len
+        }
+    }
+    impl std::ops::Index<usize> for Vec<bool> {
+        type Output = bool;
+        fn index(&self, i: usize) -> &bool {
+            assert!(i < self.len, "index out of bounds");
+            &self.buf[i]
+        }
+    }
+    /// `vec![[0; CHUNK]; k]` of the region (register slabs): carrier holding k <= 2 slabs
+    pub struct Slabs<T: Copy> {
+        s: [[T; CHUNK]; 2],
+        k: usize,
+    }
+    impl<T: Copy> Slabs<T> {
+        pub fn from_elem(e: [T; CHUNK], k: usize) -> Self {
+            assert!(k <= 2, "VERIF carrier capacity (unsupported)");
+            Slabs { s: [e; 2], k }
+        }
+    }
+    impl<T: Copy> std::ops::Index<usize> for Slabs<T> {
+        type Output = [T; CHUNK];
+        fn index(&self, i: usize) -> &[T; CHUNK] {
+            assert!(i < self.k, "index out of bounds");
+            &self.s[i]
+        }
+    }
+    impl<T: Copy> std::ops::IndexMut<usize> for Slabs<T> {
+        fn index_mut(&mut self, i: usize) -> &mut [T; CHUNK] {
+            assert!(i < self.k, "index out of bounds");
+            &mut self.s[i]
+        }
+    }
+    macro_rules! vec {
+        ($e:expr; $n:expr) => {
+            Slabs::from_elem($e, $n)
+        };
+    }
+    /// the referenced columns (1 or 2), each seen as its validity
+    pub struct KArrs {
+        pub cols: [KArr; 2],
+        pub n: usize,
+    }
+    impl KArrs {
+        pub fn iter(&self) -> std::slice::Iter<'_, KArr> {
+            self.cols[..self.n].iter()
+        }
+    }
+    #[derive(Clone, Copy)]
+    pub struct KArr {
+        pub valid: [bool; MAXN],
+    }
+    impl KArr {
+        pub fn as_any_array(&self) -> &KArr {
+            self
+        }
+        pub fn is_valid(&self, row: usize) -> bool {
+            self.valid[row]
+        }
+        pub fn null_count(&self) -> usize {
+            let mut c = 0;
+            let mut i = 0;
+            while i < MAXN {
+                c += (!self.valid[i]) as usize;
+                i += 1;
+            }
+            c
+        }
+    }
+    pub mod arrow {
+        pub mod array {
+            pub mod builder {
+                /// Arrow's BooleanBufferBuilder, as far as evaluate uses it
+                pub struct BooleanBufferBuilder {
+                    pub bits: [bool; super::super::super::MAXN],
+                    pub len: usize,
+                }
+                impl BooleanBufferBuilder {
+                    pub fn new(_capacity: usize) -> Self {
+                        BooleanBufferBuilder { bits: [false; super::super::super::MAXN], len: 0 }
+                    }
+                    /// appends bits range.start..range.end of `to_set` (LSB first within each byte)
+                    pub fn append_packed_range(&mut self, range: std::ops::Range<usize>, to_set: &[u8]) {
+                        let mut i = range.start;
+                        while i < range.end {
+                            self.bits[self.len] = (to_set[i / 8] >> (i % 8)) & 1 == 1;
+                            self.len += 1;
+                            i += 1;
+                        }
+                    }
+                }
+            }
+        }
+    }
+    /// `self`: register counts, the output register, and (oracle state) the truth of every row
+    pub struct KPred {
+        pub f_regs: usize,
+        pub m_regs: usize,
+        pub out: u16,
+        pub truth: [bool; MAXN],
+    }
+    impl KPred {
+        /// contract oracle for eval_chunk: m[out][i] = truth of row start+i for i < len (0/1); the
+        /// rest of every slab keeps whatever an earlier chunk left there
+        pub fn eval_chunk(&self, _arrays: &KArrs, start: usize, len: usize, _f: &mut Slabs<f64>, m: &mut Slabs<u8>) {
+            let mut i = 0;
+            while i < len {
+                m[self.out as usize][i] = self.truth[start + i] as u8;
+                i += 1;
+            }
+        }
+    }
+    include!("/verif/kani/gen/kx_c06_chunk_loop.rs");
+
+    /// One batch length per harness (a symbolic length with std Vec exceeded 20 min): one or two referenced
+    /// columns with any NULL pattern, any row truths: bit r of the appended mask is the truth of row r,
+    /// exactly n bits are appended, and the validity bitmap (present whenever a column has a NULL) marks
+    /// row r valid iff every referenced column is valid there.
+    fn chunk_loop_check(n: usize) {
+        let two: bool = kani::any();
+        let arrays = KArrs { cols: [KArr { valid: kani::any() }, KArr { valid: kani::any() }], n: if two { 2 } else { 1 } };
+        let p = KPred { f_regs: 1, m_regs: 1, out: 0, truth: kani::any() };
+        let (b, vb) = p.kx_c06_chunk_loop(&arrays, n);
+        assert!(b.len == n);
+        let mut any_null = false;
+        let mut r = 0;
+        while r < MAXN {
+            let valid = arrays.cols[0].valid[r] && (!two || arrays.cols[1].valid[r]);
+            if !valid {
+                any_null = true; // null_count() counts the whole array
+            }
+            if r < n {
+                assert!(b.bits[r] == p.truth[r]);
+                if let Some(v) = &vb {
+                    assert!(v[r] == valid);
+                }
+            }
+            r += 1;
+        }
+        match &vb {
+            Some(v) => assert!(v.len() == n),
+            None => assert!(!any_null),
+        }
+    }
+    /// 19 rows = chunks of 8, 8 and a ragged 3
+    #[kani::proof]
+    #[kani::unwind(21)]
+    fn c06_kx_chunk_loop_n19() {
+        chunk_loop_check(19);
+    }
+    /// 13 rows = a full chunk, then a ragged 5
+    #[kani::proof]
+    #[kani::unwind(21)]
+    fn c06_kx_chunk_loop_n13() {
+        chunk_loop_check(13);
+    }
+    /// exactly one chunk / a single ragged chunk / no rows
+    #[kani::proof]
+    #[kani::unwind(21)]
+    fn c06_kx_chunk_loop_n8() {
+        chunk_loop_check(8);
+    }
+    #[kani::proof]
+    #[kani::unwind(21)]
+    fn c06_kx_chunk_loop_n5() {
+        chunk_loop_check(5);
+    }
+    #[kani::proof]
+    #[kani::unwind(21)]
+    fn c06_kx_chunk_loop_n0() {
+        chunk_loop_check(0);
+    }
+    include!("/verif/kani/gen/playback_physical_compiled_expr__loop_c.rs");
+}
+
 include!("/verif/kani/gen/playback_physical_compiled_expr.rs");
